@@ -236,7 +236,7 @@ func C14_MainLoop() {
 // commits height 2 from inside the start of the round. The callback sequences must stay strictly increasing.
 func C13_FutureRound() {
 	me := env.Param("me") // 1..3
-	wd := newWorld(me, equalWeights(4))
+	wd := newWorld(me, paramWeights())
 	n := wd.n
 	n.commitErr = false
 	n.st.OnStore = func(e *stub.StoreEvent) { e.StateHeight = n.m.state.Height() }
@@ -250,6 +250,9 @@ func C13_FutureRound() {
 	// height-2 traffic first (cached), PREPAREs before or after the COMMITs
 	preparesLast := env.NondetBool("prepares_arrive_last")
 	n.deliver(net2.ppm(0, 2, 0, b2).ToConsensusRawMessage())
+	if env.ParamOr("duplicate", 0) == 1 {
+		n.deliver(net2.ppm(0, 2, 0, b2).ToConsensusRawMessage()) // a retransmission, cached as well
+	}
 	sendPrepares := func() {
 		for i := 1; i < 4; i++ {
 			if i != me {
